@@ -47,6 +47,11 @@ CORPUS = [
      '(join inner ((a (ds DS_1)) (b (ds DS_2)) (c (ds DS_3))) _ (keep (calc %s (("Me_9" (bin add (col "Me_1") (const (i 0)))))) ("Me_9")))' % J,
      {'DS_1': _ds([I1], [M1], [(1, 10)]), 'DS_2': _ds([I1], [M1], [(1, 20)]), 'DS_3': _ds([I1], [M1], [(1, 30)])},
      dict(kind='inner', struct='equal', nops=3, ambiguous_ref=True)),
+    ('bare-rename-of-the-remaining-duplicate-after-drop',
+     'DS_r <- inner_join(DS_1 as a, DS_2 as b drop a#Me_1 rename Me_1 to X);',
+     '(join inner ((a (ds DS_1)) (b (ds DS_2))) _ (rename (drop %s ("a#Me_1")) (("b#Me_1" "X"))))' % J,
+     {'DS_1': _ds([I1], [M1], [(1, 10), (2, 20)]), 'DS_2': _ds([I1], [M1, M5], [(1, 100, 5), (3, 300, 6)])},
+     dict(kind='inner', struct='equal', nops=2, body=['drop', 'rename'])),
     ('left3-nested',
      'DS_r <- left_join(DS_1 as a, DS_2 as b, DS_3 as c keep a#Me_1, Me_5);',
      '(join left ((a (ds DS_1)) (b (ds DS_2)) (c (ds DS_3))) _ (keep %s ("a#Me_1" "Me_5")))' % J,
@@ -141,6 +146,8 @@ def classify(case, verdict, eng_out):
     if full_nary_pattern(case) and what in ('engine-duplicate-keys', 'keys', 'value'):
         return 'full_join:n-ary:key-absent-from-first-operand-present-in-two-later-operands'
     head = '%s_join:%dops:%s' % (case['kind'], case['nops'], case['struct'])
+    if case.get('corpus'):
+        head = 'corpus:' + case['label']
     if what == 'ambiguous-reference-not-rejected':
         return '%s:%s:%s' % (head, what, 'result-returned' if eng_out[0] == 'ok' else eng_out[1].split('.')[-1])
     if what in ('keys', 'engine-duplicate-keys'):
@@ -167,7 +174,7 @@ def replay_dict(c, v, d, e, a, n):
     return {'script': c['vtl'], 'structures': G.structures(c['env']),
             'env': {k: {'ids': x['ids'], 'meas': x['meas'], 'rows': [[str(y) if isinstance(y, __import__('fractions').Fraction) else y for y in r] for r in x['rows']]}
                     for k, x in c['env'].items()},
-            'meta': {k: c.get(k) for k in ('kind', 'struct', 'nops', 'using', 'body', 'ambiguous_ref', 'label')},
+            'meta': {k: c.get(k) for k in ('kind', 'struct', 'nops', 'using', 'body', 'ambiguous_ref', 'label', 'corpus')},
             'sx': c['sx'], 'model_answer': a, 'engine': [str(x)[:800] for x in e], 'verdict': v, 'detail': str(d)[:600], 'occurrences': n}
 
 
@@ -229,7 +236,7 @@ def main(ck):
     jg = GJ.JoinGen(rng)
     cases = [c for c, _, _ in rm_cases]
     for label, vtl, sx, env, meta in CORPUS:
-        c = {'env': env, 'vtl': vtl, 'sx': sx, 'body': [], 'ops': [], 'flat': True, 'depth': 1, 'label': label, 'using': None,
+        c = {'env': env, 'vtl': vtl, 'sx': sx, 'body': [], 'ops': [], 'flat': True, 'depth': 1, 'label': label, 'corpus': True, 'using': None,
              'aliases': [True] * len(env), 'overlap': 'partial'}
         c.update(meta)
         cases.append(c)
